@@ -34,7 +34,8 @@ type Prog struct {
 	// decls: SSA function -> its syntax
 	sizes types.Sizes
 
-	cg *callGraph
+	cg   *callGraph
+	ownA *ownAnalysis
 }
 
 var shortNames = map[string]string{
